@@ -23,6 +23,13 @@ def runSC (args : List String) : String :=
     match unhex h with
     | none => "bad-op"
     | some x =>
+      if t == "pair" then
+        let r := parsePair (fun s => parseSigned s (-2147483648) 2147483647) (fun s => parseUnsigned s 4294967295) 44 (x.takeWhile (· != 0)) ((0 : Int), (0 : Nat))
+        s!"tok{r.1}:{r.2.1.1},{r.2.1.2}:{r.2.2}"
+      else if t == "vec" then
+        let r := parseSeq (fun s => parseSigned s (-2147483648) 2147483647) 44 (x.takeWhile (· != 0))
+        s!"tok{r.1.length}:{",".intercalate (r.1.map toString)}:{r.2}"
+      else
       match sRange t, uRange t with
       | some (lo, hi), _ => match parseSigned x lo hi with
         | some (v, e) => s!"ok:{v}:{e}" | none => "fail:0"
@@ -35,6 +42,18 @@ def runSC (args : List String) : String :=
           | none => "fail:0" | some (c, e) => s!"ok:{c}:{e}"
         else "bad-op"
   | [t, "w", v] =>
+    if t == "pair" then
+      match v.splitOn "," with
+      | [a, b] => match a.toInt?, b.toNat? with
+        | some a, some b => hex (showPair showSigned (fun u => showUnsigned u 4294967295) 44 (a, b))
+        | _, _ => "bad-op"
+      | _ => "bad-op"
+    else if t == "vec" then
+      if v == "-" then hex [] else
+      match (v.splitOn ",").mapM (·.toInt?) with
+      | some vs => hex (showSeq showSigned 44 vs)
+      | none => "bad-op"
+    else
     match sRange t, uRange t with
     | some _, _ => match v.toInt? with | some x => hex (showSigned x) | none => "bad-op"
     | _, some um => match v.toNat? with | some x => hex (showUnsigned x um) | none => "bad-op"
